@@ -30,21 +30,43 @@ def decode_template(esc):
     return out
 
 
-def key_term(P, subj):
-    """(key Str term, [ArgVal ...] in signature order incl. receiver)"""
+def key_terms(P, subj):
+    """[(key Str term, [ArgVal ...] in signature order incl. receiver)] - one per explored shape of the arguments
+    (an Option-typed argument that the key-building code looks into contributes a None path and a Some path)"""
     rec = subj.rec
-    I = Interp(P); E = wrap.Env(I); ctx = Ctx([])
-    params = []
-    args = []
-    if rec['recv']:
-        a = ArgVal('self', rec.get('recv_ty', 'Svc')); params.append(a); args.append(Ref(Cell(a, 'self')) if rec['recv'].startswith('&') else a)
-    for n, t in rec['args']:
-        a = ArgVal(n, t); params.append(a); args.append(a)
-    got = wrap.dry_run(I, ctx, subj, args)
-    if got is None: raise Unsupported('the wrapper made no cache lookup')
-    fname, cargs = got
-    key = deref_all(cargs[1])
-    return key, params
+    def run_path(ctx):
+        I = Interp(P); E = wrap.Env(I)
+        params = []; args = []
+        if rec['recv']:
+            a = ArgVal('self', rec.get('recv_ty', 'Svc')); params.append(a); args.append(Ref(Cell(a, 'self')) if rec['recv'].startswith('&') else a)
+        for n, t in rec['args']:
+            a = ArgVal(n, t); params.append(a); args.append(a)
+        got = wrap.dry_run(I, ctx, subj, args)
+        if got is None: raise Unsupported('the wrapper made no cache lookup')
+        fname, cargs = got
+        return deref_all(cargs[1]), params
+    outs, st = explore(run_path, max_paths=64)
+    res = []
+    for o in outs:
+        if o.status != 'ok': raise Unsupported('key construction ' + o.status + ': ' + str(o.res)[:120])
+        res.append(o.res)
+    return res
+
+
+def key_term(P, subj):
+    return key_terms(P, subj)[0]
+
+
+def expand_value(kind, val, ty):
+    """Debug rendering of a value assembled from argument placeholders (a destructured parameter re-assembled as a tuple)"""
+    if isinstance(val, Agg) and val.ty == 'tuple':
+        parts = [('lit', '(')]
+        for i, x in enumerate(val.fields):
+            if i: parts.append(('lit', ', '))
+            parts += expand_value('debug', deref_all(x), getattr(deref_all(x), 'ty', '?'))
+        parts.append(('lit', ',)' if len(val.fields) == 1 else ')'))
+        return parts
+    return [('arg', kind, val, ty)]
 
 
 def flatten(key):
@@ -63,7 +85,7 @@ def flatten(key):
         out = []
         for p in pieces:
             if p[0] == 'lit': out.append(p)
-            else: out.append(('arg', kind, val, ty))
+            else: out += expand_value(kind, val, ty)
         return out
     raise Unsupported('key term ' + repr(t)[:80])
 
@@ -123,65 +145,94 @@ def run(P, item):
     name = item['subject']; props = set(item['props']); maxlen = item.get('maxlen', 8)
     subj = wrap.Subject(P, name); rec = subj.rec
     t0 = time.time(); failed = []; claims = 0; classes = set(); nq = 0; ts = 0.0
-    key, params = key_term(P, subj)
-    flat = flatten(key)
-    argparts = [p for p in flat if p[0] == 'arg']
-    # ---- (a) structure
-    claims += 1
-    order_ok = len(argparts) == len(params) and all(p[2] is a for p, a in zip(argparts, params))
-    if not order_ok:
-        failed.append(dict(prop='C02', clause='the receiver and every parameter take part in the key exactly once, in signature order', kind='keys', cfg=f"KEY/{name}", op='structure',
-                           witness=dict(subject=name, structure=[(p[0], getattr(p[2], 'name', None) if p[0] == 'arg' else p[1]) for p in flat], params=[a.name for a in params], collide=None)))
-    classes.add('key/%dparts' % len(argparts))
-    floats = [a for a in params if a.ty in ('f64', 'f32')]
-    if floats:
-        classes.add('key/float-argument (rendering not encodable: outside the claim)')
-    elif order_ok and params:
-        # ---- (b) injectivity over renderings
-        s = z3.Solver(); s.set('timeout', 60000 if item.get('tier') != 'thorough' else 300000)
-        xs = [z3.String(f'x{i}') for i in range(len(argparts))]; ys = [z3.String(f'y{i}') for i in range(len(argparts))]
-        def build(vs):
-            parts = []; i = 0
-            for p in flat:
-                if p[0] == 'lit': parts.append(z3.StringVal(p[1]))
-                else: parts.append(vs[i]); i += 1
-            return z3.Concat(*parts) if len(parts) > 1 else parts[0]
-        try:
-            for i, p in enumerate(argparts):
-                L = lang(p[3] if p[3] not in ('?', 'T') else p[2].ty, p[1])
-                for v in (xs[i], ys[i]):
-                    s.add(z3.InRe(v, L)); s.add(z3.Length(v) <= maxlen)
-            decided = False
-            if len(argparts) >= 3:
-                # compositional form: left-to-right unique decodability.  For every argument position i that is followed by
-                # more key material, no two different renderings x != y of that position admit x ++ post_i ++ w == y ++ post_i ++ w'
-                # (post_i = the literal text up to the next argument, w / w' arbitrary).  If all these hold, equal keys force equal
-                # first components, and by induction equal tuples.  A sat answer here falls back to the full query.
-                idx = [k for k, p in enumerate(flat) if p[0] == 'arg']
-                all_unsat = True
-                for pos, k in enumerate(idx[:-1]):
-                    post = ''.join(p[1] for p in flat[k + 1:idx[pos + 1]])
+    paths_ = key_terms(P, subj); shapes_ = []
+    for key, params0 in paths_:
+        flat = flatten(key)
+        params = [l for a in params0 for l in a.leaves()]          # what the arguments consist of on this path (tuple components, Some(inner), ...)
+        shapes_.append((flat, params))
+        argparts = [p for p in flat if p[0] == 'arg']
+        # ---- (a) structure
+        claims += 1
+        order_ok = len(argparts) == len(params) and all(p[2] is a for p, a in zip(argparts, params))
+        if not order_ok:
+            failed.append(dict(prop='C02', clause='the receiver and every parameter take part in the key exactly once, in signature order', kind='keys', cfg=f"KEY/{name}", op='structure',
+                               witness=dict(subject=name, structure=[(p[0], getattr(p[2], 'name', None) if p[0] == 'arg' else p[1]) for p in flat], params=[a.name for a in params], collide=None)))
+        classes.add('key/%dparts' % len(argparts))
+        floats = [a for a in params if a.ty in ('f64', 'f32')]
+        if floats:
+            classes.add('key/float-argument (rendering not encodable: outside the claim)')
+        elif order_ok and params:
+            # ---- (b) injectivity over renderings
+            s = z3.Solver(); s.set('timeout', 60000 if item.get('tier') != 'thorough' else 300000)
+            xs = [z3.String(f'x{i}') for i in range(len(argparts))]; ys = [z3.String(f'y{i}') for i in range(len(argparts))]
+            def build(vs):
+                parts = []; i = 0
+                for p in flat:
+                    if p[0] == 'lit': parts.append(z3.StringVal(p[1]))
+                    else: parts.append(vs[i]); i += 1
+                return z3.Concat(*parts) if len(parts) > 1 else parts[0]
+            try:
+                for i, p in enumerate(argparts):
+                    L = lang(p[3] if p[3] not in ('?', 'T') else p[2].ty, p[1])
+                    for v in (xs[i], ys[i]):
+                        s.add(z3.InRe(v, L)); s.add(z3.Length(v) <= maxlen)
+                decided = False
+                if len(argparts) >= 3:
+                    # compositional form: left-to-right unique decodability.  For every argument position i that is followed by
+                    # more key material, no two different renderings x != y of that position admit x ++ post_i ++ w == y ++ post_i ++ w'
+                    # (post_i = the literal text up to the next argument, w / w' arbitrary).  If all these hold, equal keys force equal
+                    # first components, and by induction equal tuples.  A sat answer here falls back to the full query.
+                    idx = [k for k, p in enumerate(flat) if p[0] == 'arg']
+                    all_unsat = True
+                    for pos, k in enumerate(idx[:-1]):
+                        post = ''.join(p[1] for p in flat[k + 1:idx[pos + 1]])
+                        q = z3.Solver(); q.set('timeout', 60000)
+                        x, y, w1, w2 = z3.String('x'), z3.String('y'), z3.String('w1'), z3.String('w2')
+                        L = lang(argparts[pos][3] if argparts[pos][3] not in ('?', 'T') else argparts[pos][2].ty, argparts[pos][1])
+                        q.add(z3.InRe(x, L), z3.InRe(y, L), z3.Length(x) <= maxlen, z3.Length(y) <= maxlen, z3.Length(w1) <= maxlen, z3.Length(w2) <= maxlen, x != y)
+                        q.add(z3.Concat(x, z3.StringVal(post), w1) == z3.Concat(y, z3.StringVal(post), w2))
+                        t1 = time.time(); r = q.check(); ts += time.time() - t1; nq += 1
+                        if r != z3.unsat: all_unsat = False; break
+                    if all_unsat: decided = True; claims += 1
+                if not decided:
+                    s.add(build(xs) == build(ys)); s.add(z3.Or([a != b for a, b in zip(xs, ys)]))
+                    t1 = time.time(); r = s.check(); ts += time.time() - t1; nq += 1; claims += 1
+                    if r == z3.unknown: raise Unsupported('z3 could not decide the string query for ' + name + ': ' + s.reason_unknown())
+                    if r == z3.sat:
+                        m = s.model()
+                        a = [m.eval(v, model_completion=True).as_string() for v in xs]; b = [m.eval(v, model_completion=True).as_string() for v in ys]
+                        failed.append(dict(prop='C02', clause='two different argument tuples never produce the same key (argument boundaries are unambiguous)', kind='keys', cfg=f"KEY/{name}", op='injectivity',
+                                           witness=dict(subject=name, collide=[a, b], types=[p[3] for p in argparts], kinds=[p[1] for p in argparts], leaves=[getattr(p[2], 'name', '?') for p in argparts], key=m.eval(build(xs)).as_string())))
+            except Unsupported as e:
+                if 'rendering language' in str(e): classes.add('key/unmodelled-type')
+                raise
+
+    # ---- (c) two different shapes of the arguments (None vs Some(..)) never produce the same key
+    if len(shapes_) > 1:
+        for i_ in range(len(shapes_)):
+            for j_ in range(i_ + 1, len(shapes_)):
+                (fa, pa), (fb, pb) = shapes_[i_], shapes_[j_]
+                try:
                     q = z3.Solver(); q.set('timeout', 60000)
-                    x, y, w1, w2 = z3.String('x'), z3.String('y'), z3.String('w1'), z3.String('w2')
-                    L = lang(argparts[pos][3] if argparts[pos][3] not in ('?', 'T') else argparts[pos][2].ty, argparts[pos][1])
-                    q.add(z3.InRe(x, L), z3.InRe(y, L), z3.Length(x) <= maxlen, z3.Length(y) <= maxlen, z3.Length(w1) <= maxlen, z3.Length(w2) <= maxlen, x != y)
-                    q.add(z3.Concat(x, z3.StringVal(post), w1) == z3.Concat(y, z3.StringVal(post), w2))
-                    t1 = time.time(); r = q.check(); ts += time.time() - t1; nq += 1
-                    if r != z3.unsat: all_unsat = False; break
-                if all_unsat: decided = True; claims += 1
-            if not decided:
-                s.add(build(xs) == build(ys)); s.add(z3.Or([a != b for a, b in zip(xs, ys)]))
-                t1 = time.time(); r = s.check(); ts += time.time() - t1; nq += 1; claims += 1
-                if r == z3.unknown: raise Unsupported('z3 could not decide the string query for ' + name + ': ' + s.reason_unknown())
-                if r == z3.sat:
-                    m = s.model()
-                    a = [m.eval(v, model_completion=True).as_string() for v in xs]; b = [m.eval(v, model_completion=True).as_string() for v in ys]
-                    failed.append(dict(prop='C02', clause='two different argument tuples never produce the same key (argument boundaries are unambiguous)', kind='keys', cfg=f"KEY/{name}", op='injectivity',
-                                       witness=dict(subject=name, collide=[a, b], types=[p[3] for p in argparts], kinds=[p[1] for p in argparts], key=m.eval(build(xs)).as_string())))
-        except Unsupported as e:
-            if 'rendering language' in str(e): classes.add('key/unmodelled-type')
-            raise
-    return dict(paths=1, claims=claims, failed=failed, classes=sorted(classes), funcs=[subj.fname], builtins=[], checks=nq, solver_s=ts, blocks=0, infeasible=0,
+                    def mk(flat_, tag):
+                        vs = []; parts = []
+                        for p_ in flat_:
+                            if p_[0] == 'lit': parts.append(z3.StringVal(p_[1]))
+                            else:
+                                v = z3.String(f'{tag}{len(vs)}'); vs.append(v); parts.append(v)
+                                q.add(z3.InRe(v, lang(p_[3] if p_[3] not in ('?', 'T') else p_[2].ty, p_[1]))); q.add(z3.Length(v) <= maxlen)
+                        return (z3.Concat(*parts) if len(parts) > 1 else (parts[0] if parts else z3.StringVal(''))), vs
+                    ka, va = mk(fa, 'u'); kb, vb = mk(fb, 'v')
+                    q.add(ka == kb)
+                    t1 = time.time(); r = q.check(); ts += time.time() - t1; nq += 1; claims += 1
+                    if r == z3.unknown: raise Unsupported('z3 could not decide the cross-shape string query for ' + name)
+                    if r == z3.sat:
+                        m = q.model()
+                        failed.append(dict(prop='C02', clause='argument tuples of different shape (None / Some, ...) never produce the same key', kind='keys', cfg=f"KEY/{name}", op='injectivity',
+                                           witness=dict(subject=name, collide=None, structure=[m.eval(ka).as_string(), [x.name for x in pa], [x.name for x in pb]], params=[a.name for a in paths_[0][1]])))
+                except Unsupported as e:
+                    if 'rendering language' not in str(e): raise
+    return dict(paths=len(paths_), claims=claims, failed=failed, classes=sorted(classes), funcs=[subj.fname], builtins=[], checks=nq, solver_s=ts, blocks=0, infeasible=0,
                 tag=f"KEY {name} {[a.ty for a in params]} len<={maxlen} term={[(p[1] if p[0] == 'lit' else p[2].name) for p in flat]}")
 
 
@@ -212,8 +263,22 @@ def replay(f, w):
     subs = wrap.subjects(); rec = subs[w['subject']]
     try:
         kinds = w.get('kinds', ['debug'] * 9)[-len(rec['args']):]
-        a = [parse_render(t, s, k) for t, s, k in zip([x[1] for x in rec['args']], w['collide'][0][-len(rec['args']):], kinds)]
-        b = [parse_render(t, s, k) for t, s, k in zip([x[1] for x in rec['args']], w['collide'][1][-len(rec['args']):], kinds)]
+        if w.get('leaves') and any('.' in l for l in w['leaves']):
+            # structured arguments: the renderings belong to components; a tuple argument is passed natively as t:<c0>,<c1>,...
+            def tokens(side):
+                vals = dict(zip(w['leaves'], side)); kd = dict(zip(w['leaves'], w.get('kinds', [])))
+                out = []
+                for n_, t_ in rec['args']:
+                    if n_ in vals: out.append(parse_render(t_, vals[n_], kd.get(n_, 'debug')))
+                    else:
+                        comps = [vals[l] for l in w['leaves'] if l.startswith(n_ + '.')]
+                        if not comps or not all(re.match(r'^-?\d+$', c) for c in comps): raise Unsupported('components of ' + n_ + ' cannot be passed natively')
+                        out.append('t:' + ','.join(comps))
+                return out
+            a = tokens(w['collide'][0]); b = tokens(w['collide'][1])
+        else:
+            a = [parse_render(t, s, k) for t, s, k in zip([x[1] for x in rec['args']], w['collide'][0][-len(rec['args']):], kinds)]
+            b = [parse_render(t, s, k) for t, s, k in zip([x[1] for x in rec['args']], w['collide'][1][-len(rec['args']):], kinds)]
         if rec.get('recv_ty') in ('Node', 'u32'):
             a = [w['collide'][0][0]] + a; b = [w['collide'][1][0]] + b
         elif rec['recv']: return False, 'receiver values of this subject cannot be passed natively', []
